@@ -57,8 +57,8 @@ def gen_case(D):
             'batch': D.choice([0, 1, 10]), 'plan': [],
             'salt': D.int(0, 10),
             # stand-alone action executions (started through the API, no
-            # task): the checker can only skip them - the "broken" members
-            # of a batch, created first so that they are selected first
+            # task or workflow), created first so that they are selected
+            # first: running synchronous actions like any other
             'ghosts': D.choice([0, 0, 1, 2, 3])}
     for _ in range(D.int(2, 9)):
         r = D.int(0, 9)
@@ -142,12 +142,24 @@ def _run_hb(case, stats, text, checker):
     snap = sim.snapshot()
     # map task name -> action id
     aid = {}
-    for a in snap['action'].values():
+    ghost_ids = []
+    for a in sorted(snap['action'].values(),
+                    key=lambda a: (a['created_at'], a['id'])):
         if not a['task_execution_id']:
-            continue                    # a ghost
+            ghost_ids.append(a['id'])   # stand-alone action execution
+            continue
         t = snap['task'][a['task_execution_id']]
         if t['name'].startswith('a'):
             aid[int(t['name'][1:])] = a['id']
+    # stand-alone actions are running synchronous actions like the others:
+    # indexes behind the workflow's own (silent, synchronous, no task)
+    acts = list(acts)
+    ghosts = set()
+    for gid in ghost_ids:
+        gi = len(acts)
+        acts.append({'sync': True, 'silent': True, 'complete_at': 0})
+        aid[gi] = gid
+        ghosts.add(gi)
     T0 = sim.now()
     model_last = {i: T0 + datetime.timedelta(seconds=case['fht'])
                   for i in aid}
@@ -227,10 +239,9 @@ def _run_hb(case, stats, text, checker):
             # several passes (the statement promises expiry, not "in one
             # pass"): further passes at the same clock, as many as a
             # correct batching implementation needs, must finish the set.
-            # Rows the checker can only skip (ghosts) must not starve it.
             bs = case['batch'] or 0
             if bs:
-                rounds = (len(expect) + case.get('ghosts', 0)) // bs + 2
+                rounds = len(expect) // bs + 2
                 for _ in range(rounds):
                     done = {i for i in aid
                             if after['action'][aid[i]]['state'] != 'RUNNING'}
@@ -266,7 +277,7 @@ def _run_hb(case, stats, text, checker):
                                                  for i in aid}}})
             expired |= got
             # error handling follows
-            for i in got:
+            for i in got - ghosts:
                 tn = 'a%d' % i
                 ts = [t for t in after['task'].values() if t['name'] == tn]
                 hs = [t for t in after['task'].values()
